@@ -144,8 +144,18 @@ def _die_with_parent():
         pass
 
 
+def norm_auction(a):
+    """one shape for both encodings of an Any: {"@type": T, fields...} and {"type": T, "value": {fields...}}"""
+    if isinstance(a, dict) and isinstance(a.get("value"), dict) and isinstance(a.get("type"), str):
+        out = dict(a["value"])
+        out["@type"] = a["type"]
+        return out
+    return a
+
+
 def base_of(auction):
     """the common part of an auction object, wherever the encoding puts it"""
+    auction = norm_auction(auction)
     if not isinstance(auction, dict):
         return {}
     for k in ("base_auction", "baseAuction"):
@@ -292,7 +302,7 @@ class Chain:
         if isinstance(obj, dict):
             for k in keys:
                 if isinstance(obj.get(k), list):
-                    return obj[k]
+                    return [norm_auction(x) for x in obj[k]]
         return []
 
     def list_auctions(self):
@@ -323,10 +333,10 @@ class Chain:
         """(auction object or None, source, shown, raw): `get-auction` through the CLI (checked), else the gateway"""
         rc, obj, out, err, shown = self.query("get-auction", [str(aid)])
         if isinstance(obj, dict) and isinstance(obj.get("auction"), dict):
-            return obj["auction"], "cli", shown, out
+            return norm_auction(obj["auction"]), "cli", shown, out
         r, url, why = self.rest("/auction/%d" % aid)
         if isinstance(r, dict) and isinstance(r.get("auction"), dict):
-            return r["auction"], "rest", self.shown_url(url), json.dumps(r)
+            return norm_auction(r["auction"]), "rest", self.shown_url(url), json.dumps(r)
         return None, None, shown, (out + err)[-600:]
 
     def get_vqueues(self, aid):
@@ -441,7 +451,9 @@ class Chain:
             time.sleep(0.3)
         ok = height >= 2
         if not ok:
-            tail = self.node_log_tail()
+            tail = self.node_log_tail(400)
+            errs = [ln for ln in tail.split("\n") if re.search(r"^Error|panic|already in use|failed to", ln)][:6]
+            tail = "\n".join(errs or tail.split("\n")[-15:])
             if re.search(r"address already in use", tail):
                 why = (why + "; a port is busy (address already in use)").strip("; ")
             why = (why or "status did not report height >= 2 in time") + "\n" + tail
@@ -813,34 +825,45 @@ class Chain:
                    sig + "selling_coin", json.dumps(b.get("selling_coin")), shown)
         self.check(name + "paying denom as typed", b.get("paying_coin_denom") == PAYING, sig + "paying_coin_denom",
                    repr(b.get("paying_coin_denom")), shown)
-        self.check(name + 'start price "%s"' % DEC_HALF, b.get("start_price") == DEC_HALF, sig + "start_price",
-                   repr(b.get("start_price")), shown)
+        self.dec_check(name + 'start price "%s"' % DEC_HALF, b.get("start_price"), DEC_HALF, RAW_HALF, sig,
+                       "start_price", shown)
         self.check(name + "start time as typed", same_time(b.get("start_time", ""), start), sig + "start_time",
                    "%r != %r" % (b.get("start_time"), start), shown)
         et = b.get("end_times") or []
         self.check(name + "end time as typed", len(et) >= 1 and same_time(et[0], ends[0]), sig + "end_time",
                    "%r != %r" % (et, ends), shown)
         vs = b.get("vesting_schedules") or []
-        ok = len(vs) == len(scheds) and all(same_time(v.get("release_time", ""), s[0]) and v.get("weight") == s[1]
-                                            for v, s in zip(vs, scheds))
-        self.check(name + "%d vesting schedule(s) as typed" % len(scheds), ok, sig + "vesting_schedules",
-                   "%s != %s" % (json.dumps(vs), scheds), shown)
+        ok = len(vs) == len(scheds) and all(same_time(v.get("release_time", ""), s[0]) for v, s in zip(vs, scheds))
+        self.check(name + "%d vesting schedule(s) with the typed release times" % len(scheds), ok,
+                   sig + "vesting_schedules", "%s != %s" % (json.dumps(vs), scheds), shown)
+        if ok:
+            for i, (v, s) in enumerate(zip(vs, scheds)):
+                raw = s[1].replace(".", "").lstrip("0") or "0"
+                self.dec_check(name + 'schedule %d weight "%s"' % (i, s[1]), v.get("weight"), s[1], raw, sig,
+                               "vesting_schedules.weight", shown)
         self.check(name + "status in %s" % [s.replace("AUCTION_STATUS_", "") for s in statuses],
                    b.get("status") in statuses, "chain-query-content:get-auction-status", repr(b.get("status")), shown)
         for k in ("selling_reserve_address", "paying_reserve_address", "vesting_reserve_address"):
             self.check(name + k + " is shown", isinstance(b.get(k), str) and b.get(k, "").startswith("cosmos1"),
                        "chain-query-content:get-auction-" + k, repr(b.get(k)), shown)
         if kind == "batch":
-            self.check(name + 'min bid price "%s"' % DEC_TENTH, a.get("min_bid_price") == DEC_TENTH,
-                       sig + "min_bid_price", repr(a.get("min_bid_price")), shown)
+            self.dec_check(name + 'min bid price "%s"' % DEC_TENTH, a.get("min_bid_price"), DEC_TENTH, RAW_TENTH, sig,
+                           "min_bid_price", shown)
             self.check(name + "max extended round 1", int(a.get("max_extended_round", 0) or 0) == 1,
                        sig + "max_extended_round", repr(a.get("max_extended_round")), shown)
-            self.check(name + 'extended round rate "%s"' % DEC_TENTH, a.get("extended_round_rate") == DEC_TENTH,
-                       sig + "extended_round_rate", repr(a.get("extended_round_rate")), shown)
+            self.dec_check(name + 'extended round rate "%s"' % DEC_TENTH, a.get("extended_round_rate"), DEC_TENTH,
+                           RAW_TENTH, sig, "extended_round_rate", shown)
         else:
             self.check(name + "remaining selling coin is the whole selling coin",
                        a.get("remaining_selling_coin") == {"denom": SELLING[1], "amount": SELLING[0]},
                        "chain-query-content:get-auction-remaining", json.dumps(a.get("remaining_selling_coin")), shown)
+
+    def dec_check(self, name, got, dec, raw, sig, field, shown):
+        """a decimal must be shown as a decimal; the raw 18-digit integer is a display defect of its own"""
+        if got == raw and raw != dec:
+            return self.check(name, False, "chain-query-dec-raw:" + field,
+                              "%s is displayed as the raw integer %r instead of %r" % (field, got, dec), shown)
+        return self.check(name, got == dec, sig + field, "%r != %r" % (got, dec), shown)
 
     def add_allowed_bidder(self, aid, bob):
         """the default build must refuse MsgAddAllowedBidder at run time ("... is disabled")"""
@@ -1004,9 +1027,9 @@ class Chain:
             if len(et) == 2:
                 self.check("auction (b): second end time = first + extended_period (0 days in this genesis)",
                            same_time(et[0], et[1]), "chain-lifecycle:batch-extension-time", "end_times %s" % et, shown)
-            self.check("auction (b) FINISHED: matched price is displayed as a decimal [%s]" % src,
-                       re.match(r"^\d+\.\d{18}$", str(ba.get("matched_price", ""))) is not None,
-                       "chain-query-content:get-auction-matched-price", repr(ba.get("matched_price")), shown)
+            self.dec_check("auction (b) FINISHED: matched price is displayed as the decimal 0 (nothing sold) [%s]" % src,
+                           ba.get("matched_price"), "0.000000000000000000", "0", "chain-query-content:get-auction-",
+                           "matched_price", shown)
             hist = self.statuses(b)
             self.check("auction (b) status sequence is [STAND_BY,] STARTED, FINISHED",
                        hist in ([STATUS["STARTED"], STATUS["FINISHED"]],
